@@ -391,7 +391,7 @@ def check_unit_enum(ctx, chk, db, W, ty, adt, ents, paths, fb):
                         calls = [c.split("::")[-1] for c in p.calls_of(t)]
                         chk.require("parse" in calls, "X4", key + ":conv", e.callsite, "payload not read with str::parse (%s)" % calls[:4])
             # the separator inside the literal must be the one the parser splits on
-            strs, chars = T.str_and_char_consts(db, fb)
+            strs, chars = T.str_and_char_consts(db, fb, T.helpers_of(ctx, fb))
             sep = lit[-1] if lit else ""
             chk.require(sep in chars or any(sep in s for s in strs), "X9", key + ":separator", e.callsite, "separator %r is not used by the parser" % sep)
     for lit, vs in seen_lits.items():
@@ -455,7 +455,7 @@ def check_list(ctx, chk, db, W, ty, ents, paths, fb, elem):
                 "list writer literals: %s" % plain)
     if not (opener and closer and joiner):
         return
-    strs, chars = T.str_and_char_consts(db, fb)
+    strs, chars = T.str_and_char_consts(db, fb, T.helpers_of(ctx, fb))
     pre = {x for p in paths for x in p.prefixes}
     suf = {x for p in paths for x in p.suffixes}
     chk.require(opener[0] in pre, "X1", ty, ents[0].callsite, "Display opens with %r, the parser requires prefix %s" % (opener[0], sorted(pre)))
@@ -482,7 +482,7 @@ def check_queue(ctx, chk, db, W, ents, fb):
     paths, allres = T.reader_paths(ctx, fb)
     pre = {x for p in paths for x in p.prefixes}
     suf = {x for p in paths for x in p.suffixes}
-    strs, chars = T.str_and_char_consts(db, fb)
+    strs, chars = T.str_and_char_consts(db, fb, T.helpers_of(ctx, fb))
     chk.require(opener in pre, "X1", "OrderQueue", e.callsite, "Display opens with %r, parser requires %s" % (opener, sorted(pre)))
     chk.require(closer in suf, "X9", "OrderQueue:close", e.callsite, "Display closes with %r, parser requires suffix %s" % (closer, sorted(suf)))
     j = T.list_joiner(db, ctx.db.method("OrderQueue", "fmt", trait="Display"), idiom)
@@ -506,7 +506,7 @@ def check_level(ctx, chk, db, W, ents, fb):
         wkeys[k] = (field, idiom, trait, default)
     tag = e.template.split(":", 1)[0] + ":"
     w = ctx.walker(max_depth=4)
-    w.no_inline = lambda p, d=fb.defp: not p.startswith(d + "::")
+    w.no_inline = lambda p, hs=T.helpers_of(ctx, fb): p not in hs
     res = w.walk(fb)
     oks = [r for r in res if r.kind == "return" and isinstance(r.value, tuple) and r.value[0] == "agg" and r.value[2] == "Ok"]
     chk.require(len(oks) >= 1, "X0", "PriceLevel:ok-paths", fb.span, "no Ok path")
@@ -538,7 +538,7 @@ def check_level(ctx, chk, db, W, ents, fb):
             chk.require(wkeys[k][2] == "Display" and wkeys[k][3], "X4", "PriceLevel:%s:format" % k, e.callsite, "key %s written with {:%s}" % (k, wkeys[k][2]))
     o = wkeys.get("orders")
     j = T.list_joiner(db, ctx.db.method("PriceLevel", "fmt", trait="Display"), o[1] if o else None)
-    strs, chars = T.str_and_char_consts(db, fb)
+    strs, chars = T.str_and_char_consts(db, fb, T.helpers_of(ctx, fb))
     chk.require(j is not None and j in chars, "X9", "PriceLevel:joiner", e.callsite, "orders joined with %r; parser splits on %s" % (j, sorted(chars)))
     chk.require("orders=[" in strs and "]" in chars, "X9", "PriceLevel:brackets", e.callsite, "parser looks for %s / %s" % (sorted(s for s in strs if "[" in s), sorted(chars)))
     chk.require("orders=[" in e.template and e.template.endswith("]"), "X9", "PriceLevel:writer-brackets", e.callsite, "template %r" % e.template)
@@ -561,7 +561,7 @@ def check_match_result(ctx, chk, db, W, adt, ents, paths, allres, fb):
         if m:
             wmap[m.group(1)] = ("filled_order_ids", "Display", True)
     tag = ents[0].template.split(":", 1)[0] + ":"
-    strs, chars = T.str_and_char_consts(db, fb)
+    strs, chars = T.str_and_char_consts(db, fb, T.helpers_of(ctx, fb))
     ftys = field_types(adt)
     chk.require(set(wmap) == set(ftys), "X2", "MatchResult:writer", ents[0].callsite, "keys written %s vs fields %s" % (sorted(wmap), sorted(ftys)))
     for k, (field, trait, default) in wmap.items():
